@@ -147,6 +147,37 @@ timestamp 0 is not seen afterwards. -/
 theorem expiry_zero_not_tracked (s : Seen) (id : Nat) : (s.add id 0).get id = s.get id := by
   simp [Seen.add]
 
+/-! ### Atomicity assumption (concurrency)
+
+`Reachable` treats `Accept(b)` as ONE step: `lastAcceptedBlockHeight := b.height` and
+`seen := (seen.setMin b.ts).addAll b.txs` become visible to verification / `IsRepeat` together.
+In the Go code this holds because `Accept` performs both updates inside one `v.mu` critical
+section and `VerifyExpiryReplayProtection` / `isRepeat` read `lastAcceptedBlockHeight` and
+`seen` under the same mutex. The theorems above rely on it; it is *checked against the real
+code on every run* by the concurrent tie `TestVerifC09Conc`
+(harness/internal/validitywindow/zz_verif_c09conc_test.go): the accepting goroutine is parked
+inside every accessor call `Accept` makes on the block, and while it is parked a child of that
+block repeating one of its txs is verified (and offered to `IsRepeat`) from another goroutine;
+the verdict must be "duplicate" (the verifier may block until `Accept` finishes).
+
+`accept_height_first_unsafe` shows the assumption is needed: in the intermediate state of an
+`Accept` that publishes the height before it fills `seen` (lagging async accept racing with
+verification) the model accepts a child that repeats a tx of the block being accepted, while
+both the state before and the state after `Accept` reject it. -/
+
+def cxG : Block := { id := 0, parent := 999, ts := 0, height := 0, txs := [] }
+def cxB : Block := { id := 1, parent := 0, ts := 1, height := 1, txs := [⟨7, 3⟩] }
+def cxC : Block := { id := 2, parent := 1, ts := 2, height := 2, txs := [⟨7, 3⟩] }
+def cxIdx : Index := fun i => if i = 0 then some cxG else if i = 1 then some cxB else none
+
+theorem accept_height_first_unsafe :
+    let v := newWindow cxIdx 5 3 cxG
+    let mid : VW := { v with lastAccepted := cxB.height }   -- height published, seen not yet updated
+    verifyERP cxIdx 5 v 5 cxC = .dupAncestor ∧
+    verifyERP cxIdx 5 (accept v cxB) 5 cxC = .dupAncestor ∧
+    verifyERP cxIdx 5 mid 5 cxC = .ok := by
+  refine ⟨by decide, by decide, by decide⟩
+
 /-! Non-vacuity: a one-block tree is well formed and the fresh window over it is reachable. -/
 def g0 : Block := { id := 0, parent := 999, ts := 0, height := 0, txs := [] }
 def U0 : Universe := fun i => if i = 0 then some g0 else none
